@@ -802,15 +802,6 @@ func noteSched(what string) {
 }
 
 func checkA(c CaseA) *core.Violation {
-	if os.Getenv("C16_TIMING") != "" {
-		t0 := time.Now()
-		defer func() {
-			if d := time.Since(t0); d > 1500*time.Millisecond {
-				b, _ := json.Marshal(c)
-				fmt.Fprintf(os.Stderr, "SLOW %v %s\n", d, b)
-			}
-		}()
-	}
 	withService := c.Cfg == nil || !c.Cfg.NoService
 	fx, err := svcx.New(withService)
 	if err != nil {
